@@ -280,6 +280,8 @@ class TermBuilder:
 
     def in_nograd(self, node: Node) -> bool:
         """Is the CFG node lexically inside `with torch.no_grad()` (or inference_mode)?"""
+        if getattr(self, "_under_nograd", False):
+            return True
         s = node.stmt if node.stmt is not None else node.ast
         if s is None:
             return False
@@ -734,6 +736,67 @@ class TermBuilder:
             return False
         return bool(base.atoms())
 
+    def _helper_of(self, e: ast.Call, at: Node) -> Optional[Fn]:
+        """The private helper a call denotes, if it is one the front end would inline were its body in the right form: a method of the same
+        class called on self (or a function of the same module), defined exactly once in the package, private, and not an anchor of any rule."""
+        f = e.func
+        callee: Optional[Fn] = None
+        if isinstance(f, ast.Attribute) and isinstance(f.value, ast.Name) and self.selfname and f.value.id == self.selfname and self.fn.cls is not None:
+            callee = self.repo.find_method(self.fn.cls, f.attr)
+        elif isinstance(f, ast.Name) and not self.cfg.defs_reaching(at, f.id) and f.id not in (getattr(self, "_env", None) or {}):
+            callee = self.fn.mod.functions.get(f.id)
+        if callee is None or callee.mod is not self.fn.mod:
+            return None
+        nm = callee.name
+        if not nm.startswith("_") or nm.startswith("__") or getattr(self.repo, "unique_defs", {}).get(nm) is not callee.node:
+            return None
+        from .inline import known_names
+        if nm in known_names():
+            return None
+        nd = callee.node
+        if isinstance(nd, ast.AsyncFunctionDef) or nd.args.vararg or nd.args.kwarg:
+            return None
+        for d in nd.decorator_list:
+            if not (isinstance(d, ast.Name) and d.id in ("staticmethod", "classmethod")):
+                return None
+        if any(isinstance(x, (ast.Yield, ast.YieldFrom, ast.Await)) for x in walk_no_nested(nd)):
+            return None
+        return callee
+
+    def _follow_helper(self, e: ast.Call, at: Node, _seen) -> Optional[Poly]:
+        """Value of a call of a private helper: the alternatives of its `return` expressions (wherever they stand: inside `with`, loops, after an
+        early return), evaluated in the helper with every parameter bound to the term of the argument of this call."""
+        if len(self._stack) >= 4 or any(isinstance(a, ast.Starred) for a in e.args) or any(k.arg is None for k in e.keywords):
+            return None
+        callee = self._helper_of(e, at)
+        if callee is None or callee.qualname in self._stack:
+            return None
+        rets = [x for x in walk_no_nested(callee.node) if isinstance(x, ast.Return) and x.value is not None]
+        if not rets:
+            return None
+        cfgs = self.__dict__.setdefault("_helper_cfgs", {})
+        if callee.qualname not in cfgs:
+            cfgs[callee.qualname] = CFG(callee.node)
+        sub = TermBuilder(self.repo, callee, self.atoms, self.depth, cfg=cfgs[callee.qualname], _stack=self._stack)
+        sub._under_nograd = self.in_nograd(at)  # a helper called under no_grad runs under no_grad as a whole
+        params = callee.named_params
+        if callee.cls is not None and not callee.has_decorator("staticmethod") and params:
+            params = params[1:]
+        for p in params:
+            arg = bind_arg(callee, e, p)
+            if arg is None:
+                return None
+            sub._param_cache[p] = self._term(arg, at, _seen)
+        alts: List[Poly] = []
+        for r in sorted(rets, key=lambda x: (x.lineno, x.col_offset)):
+            n = sub.cfg.node_of(r.value)
+            if n is None:
+                continue  # unreachable
+            alts.append(sub.term(r.value, n))
+        if not alts:
+            return None
+        return self._phi(alts, e)
+
     def _call(self, e: ast.Call, at: Node, _seen) -> Poly:
         cn = call_name(e)
         la = last_attr(e)
@@ -776,7 +839,11 @@ class TermBuilder:
         if cn in ("torch.mul", "torch.add", "torch.sub", "torch.div") and len(e.args) == 2:
             op = {"mul": ast.Mult(), "add": ast.Add(), "sub": ast.Sub(), "div": ast.Div()}[cn.split(".")[1]]
             return self._binop(op, self._term(e.args[0], at, _seen), self._term(e.args[1], at, _seen), e)
-        # same-class pure helper inlining: self.helper(args) with a single return expression
+        # extracted private helpers the front end could not inline (e.g. a `return` inside a `with` block): the value of the call is the
+        # value the helper returns, with its parameters bound to the arguments of THIS call
+        followed = self._follow_helper(e, at, _seen)
+        if followed is not None:
+            return followed
         # generic call atom
         args = [self._term(a, at, _seen) for a in e.args]
         kws = [(k.arg or "**", self._term(k.value, at, _seen)) for k in e.keywords]
